@@ -522,6 +522,7 @@ func runC07(c *Ctx) {
 	checkMergeKeysState(c)
 	checkListApplySiblings(c, "siblings.apply-errors")
 	checkNoRelabelAsMissing(c, "siblings.no-relabel")
+	checkGenericErrorDiscipline(c, "pkg/core")
 }
 
 
